@@ -518,6 +518,13 @@ def _addArgs(a, b):
     return a + b
 
 
+def _isEncodable(arg):
+    # Type 2 charstring operands are 16-bit integers or 16.16 fixed numbers.
+    if isinstance(arg, list):
+        arg = arg[0]
+    return -32768 <= arg < 32768
+
+
 def _argsStackUse(args):
     stackLen = 0
     maxLen = 0
@@ -580,10 +587,10 @@ def specializeCommands(
     for i in range(len(commands) - 1, 0, -1):
         if "rmoveto" == commands[i][0] == commands[i - 1][0]:
             v1, v2 = commands[i - 1][1], commands[i][1]
-            commands[i - 1] = (
-                "rmoveto",
-                [_addArgs(v1[0], v2[0]), _addArgs(v1[1], v2[1])],
-            )
+            new_args = [_addArgs(v1[0], v2[0]), _addArgs(v1[1], v2[1])]
+            if not all(_isEncodable(v) for v in new_args):
+                continue
+            commands[i - 1] = ("rmoveto", new_args)
             del commands[i]
 
     # 2. Specialize rmoveto/rlineto/rrcurveto operators into horizontal/vertical variants.
@@ -694,6 +701,8 @@ def specializeCommands(
                 try:
                     new_args = [_addArgs(args[0], other_args[0])]
                 except ValueError:
+                    continue
+                if not _isEncodable(new_args[0]):
                     continue
                 commands[i - 1] = (op, new_args)
                 del commands[i]
